@@ -17,7 +17,7 @@ import itertools
 import cspuz
 from cspuz import constraints as C
 from cspuz.array import BoolArray1D, IntArray1D
-from cspuz.expr import BoolExpr, IntExpr, Op
+from cspuz.expr import BoolExpr, Expr, IntExpr, Op
 
 CMPS = ["eq", "ne", "le", "lt", "ge", "gt"]
 
@@ -105,7 +105,38 @@ def _flat(nest, vals):
 
 
 # ----------------------------------------------------------------------------- builder (public API)
+_memo = None
+
+
+class shared:
+    """with progs.shared(): identical sub-ASTs are built ONCE and the same expression object is used at every occurrence - in one
+    constraint and across the constraints of a program or session (callers do write `a = x & y` and use `a` three times).  An
+    operator that edits an operand node in place shows up as a wrong meaning of the other occurrences."""
+
+    def __enter__(self):
+        global _memo
+        self.old, _memo = _memo, {}
+        return self
+
+    def __exit__(self, *a):
+        global _memo
+        _memo = self.old
+        return False
+
+
 def build(n, vars_):
+    if _memo is None or n[0] in ("bv", "iv", "bl", "il"):
+        return _build_raw(n, vars_)
+    k = repr(n)
+    if k in _memo:
+        return _memo[k]
+    r = _build_raw(n, vars_)
+    if isinstance(r, Expr):
+        _memo[k] = r
+    return r
+
+
+def _build_raw(n, vars_):
     t = n[0]
     if t == "bv" or t == "iv":
         return vars_[n[1]]
@@ -227,6 +258,7 @@ class Gen:
         self.ivars = [i for i, d in enumerate(decls) if d[0] == "i"]
         self.depth = depth
         self.lit_rate = lit_rate
+        self.bpool, self.ipool = [], []  # compound subtrees generated so far (re-used verbatim now and then: shared subterms)
 
     def int_lit(self):
         r = self.rng
@@ -259,6 +291,15 @@ class Gen:
         return ["cond", b, ["il", 1], ["il", 0]]
 
     def bool_(self, d):
+        r = self.rng
+        if d > 0 and self.bpool and r.random() < 0.08:
+            return r.choice(self.bpool)
+        n = self._bool(d)
+        if d > 0 and n[0] not in ("bv", "bl", "bc") and len(self.bpool) < 12:
+            self.bpool.append(n)
+        return n
+
+    def _bool(self, d):
         r = self.rng
         if d <= 0 or r.random() < 0.18:
             if r.random() < 0.04:
@@ -316,6 +357,15 @@ class Gen:
         return [kind] + [(["bl", r.random() < 0.6] if r.random() < 0.3 else self.nest(d - 1)) for _ in range(m)]
 
     def int_(self, d):
+        r = self.rng
+        if d > 0 and self.ipool and r.random() < 0.08:
+            return r.choice(self.ipool)
+        n = self._int(d)
+        if d > 0 and n[0] not in ("iv", "il", "ic") and len(self.ipool) < 12:
+            self.ipool.append(n)
+        return n
+
+    def _int(self, d):
         r = self.rng
         if d <= 0 or r.random() < 0.25:
             if r.random() < 0.04:
